@@ -77,16 +77,18 @@ def run(ctx):
                         'Ok(None) reachable outside the None arm of create_multi_signature', f.loc())
         # identity of the certificate along the pipeline
         tn = ctx.call_sites(body, ['mithril_common::entities::certificate::Certificate::try_new'])
-        vs = ctx.call_sites(body, VERIFY)
-        ss = ctx.call_sites(body, STORE)
-        ok = bool(tn and vs and ss)
+        TRY_NEW = 'mithril_common::entities::certificate::Certificate::try_new'
+        # wherever under create_certificate the certificate is verified / stored (possibly in helpers): it is the built one
+        vs_ = ctx.closure_sites(CC, VERIFY, depth=3)
+        ss_ = ctx.closure_sites(CC, STORE, depth=3)
+        ok = bool(ctx.closure_sites(CC, [TRY_NEW], depth=3) and vs_ and ss_)
         if ok:
-            ok = all(has(fn_origins(lf, c.args[1], 'adapters'), 'call:*Certificate::try_new') for c in vs) and \
-                all(has(fn_origins(lf, c.args[1], 'adapters'), 'call:*Certificate::try_new') for c in ss)
+            ok = all(ctx.via_sink(ctx.deep(CC, g_, c_.args[1], 'adapters', up=3, depth=3), TRY_NEW) or ctx.via_sink(ctx.deep(CC, g_, c_.args[1], True, up=3, depth=3), TRY_NEW) for g_, c_ in vs_) and \
+                all(ctx.via_sink(ctx.deep(CC, g_, c_.args[1], True, up=3, depth=3), TRY_NEW) for g_, c_ in ss_)
             for sp in return_assigns(body, 'ok')[0]:
                 if ret_ok_some(body, sp):
                     x = option_payload(body, ok_payload(body, sp))
-                    if x is None or not has(fn_origins(lf, x, 'adapters'), 'call:' + STORE[0]):
+                    if x is None or not ctx.via_sink(fn_origins(lf, x, True), STORE[0]):
                         ok = False
         if ok:
             R.ok('a', 'R5', 'create_certificate: verified = stored = built certificate; returned = stored certificate', '', f.loc())
